@@ -35,6 +35,8 @@ type Cfg struct {
 	TimeoutMs int `json:"timeout_ms,omitempty"`
 	// NoDelay: no pause between probes: several of them reach the destination before its first answer is back, and each is answered
 	NoDelay bool `json:"no_delay,omitempty"`
+	// Paris: TCP SYN in Paris mode (library parameter: every probe draws its own sequence number, the IP ID is constant)
+	Paris bool `json:"paris,omitempty"`
 }
 
 func (c Cfg) class() string {
@@ -53,6 +55,9 @@ func (c Cfg) class() string {
 	}
 	if c.NoDelay {
 		fam += "/no-send-delay"
+	}
+	if c.Paris {
+		fam += "/paris-mode"
 	}
 	return fmt.Sprintf("len%d/%s-%s/port-%s/silent-%d/first-%d/x%d%s", c.Len, c.Proto, c.Method, c.Port, c.Silent, c.First, c.Concur, fam)
 }
@@ -95,6 +100,12 @@ func configs(tier string) []Cfg {
 				if v.p == "tcp" && v.m != "sack" && l == 2 {
 					// not the first run of its process: the packet-identifier range of the SYN probes crosses the 16-bit wrap
 					out = append(out, Cfg{Len: l, Proto: v.p, Method: v.m, Port: map[string]string{"syn": "open", "prefer_sack": "nosack"}[v.m], First: 1, Concur: 1, History: 2})
+				}
+				if v.p == "tcp" && v.m == "syn" {
+					// Paris mode (a library parameter): the same chain of routers, then the destination, open and closed port
+					out = append(out, Cfg{Len: l, Proto: v.p, Method: v.m, Port: "open", First: 1, Concur: 1, E2e: 1, Paris: true})
+					out = append(out, Cfg{Len: l, Proto: v.p, Method: v.m, Port: "closed", First: 1, Concur: 1, Paris: true})
+					out = append(out, Cfg{Len: l, Proto: v.p, Method: v.m, Port: "open", Silent: 1, First: 2, Concur: 1, Paris: true})
 				}
 				if v.m != "syn" {
 					out = append(out, Cfg{Len: l, Proto: v.p, Method: v.m, Port: "open", First: 1, Concur: 1, NoDelay: true})
@@ -300,8 +311,8 @@ func invoke(l *lab, c Cfg, proto, method string) (*doc, string, error) {
 	}
 	src := l.ns[0]
 	var args []string
-	if c.First > 1 || c.History > 0 || c.NoDelay {
-		args = []string{"netns", "exec", src, os.Getenv("VERIF_C13_DRV"), "-proto", proto, "-method", method, "-port", port, "-min", fmt.Sprint(c.First), "-max", maxOf(c), "-timeout", timeoutOf(c), "-q", "1", "-e2e", fmt.Sprint(c.E2e), "-history", fmt.Sprint(c.History), "-delay", map[bool]string{false: "50", true: "0"}[c.NoDelay], dstAddr}
+	if c.First > 1 || c.History > 0 || c.NoDelay || c.Paris {
+		args = []string{"netns", "exec", src, os.Getenv("VERIF_C13_DRV"), "-proto", proto, "-method", method, "-port", port, "-min", fmt.Sprint(c.First), "-max", maxOf(c), "-timeout", timeoutOf(c), "-q", "1", "-e2e", fmt.Sprint(c.E2e), "-history", fmt.Sprint(c.History), "-delay", map[bool]string{false: "50", true: "0"}[c.NoDelay], fmt.Sprintf("-paris=%v", c.Paris), dstAddr}
 	} else {
 		args = []string{"netns", "exec", src, os.Getenv("VERIF_C13_CLI"), "-P", proto, "-p", port, "-q", "1", "-Q", fmt.Sprint(c.E2e), "-m", maxOf(c), "--timeout", timeoutOf(c)}
 		if proto == "tcp" {
